@@ -153,3 +153,23 @@ package main
 //@   ensures err == nil ==> claimsAuthJWT(serializedToken).NotBefore <= nowNanos() / 1000000000            #C04.auth-nbf @C04
 //@   ensures err == nil ==> rvalue.Username == claimsAuthJWT(serializedToken).Subject && rvalue.AuthType == claimsAuthJWT(serializedToken).AuthType  #C04.auth-claims @C04
 //@   ensures err == nil ==> timeNanos(rvalue.ExpiresAt) == claimsAuthJWT(serializedToken).Expiration * 1000000000 && timeNanos(rvalue.IssuedAt) == claimsAuthJWT(serializedToken).IssuedAt * 1000000000  #C04.auth-times @C04
+
+//@ func (*RuntimeState).getStorageDataFromStorageStringDataJWT
+//@   ensures err == nil ==> verifiedByKeymaster(state, serializedToken)                                    #C04.storage-verified @C04,C07
+//@   ensures err == nil ==> claimsStorageJWT(serializedToken).Issuer == state.idpGetIssuer() && len(claimsStorageJWT(serializedToken).Audience) >= 1 && claimsStorageJWT(serializedToken).Audience[0] == state.idpGetIssuer()  #C04.storage-issuer-audience @C04
+//@   ensures err == nil ==> claimsStorageJWT(serializedToken).TokenType == "storage_data"                  #C04.storage-kind @C04
+//@   ensures err == nil ==> claimsStorageJWT(serializedToken).NotBefore <= nowNanos() / 1000000000         #C04.storage-nbf @C04
+//@   ensures err == nil ==> claimsStorageJWT(serializedToken).Expiration >= nowNanos() / 1000000000        #C04.storage-exp @C04,C07
+//@   ensures err == nil ==> same(rvalue, claimsStorageJWT(serializedToken))                                #C04.storage-claims @C04
+//@   observe exp int64 = claimsStorageJWT(serializedToken).Expiration
+//@   observe now int64 = nowNanos() / 1000000000
+
+// GetSigned (goroutine + select + conditional defers) is outside the verifier's subset: its subject test is not
+// under contract; the record it accepts went through getStorageDataFromStorageStringDataJWT above.
+
+//@ func (*RuntimeState).updateAuthJWTWithNewAuthLevel
+//@   results newtok, err
+//@   ensures err == nil ==> verifiedByKeymaster(state, intoken)                                            #C04.update-verified @C04
+//@   ensures err == nil ==> claimsAuthJWT(intoken).Issuer == state.idpGetIssuer() && len(claimsAuthJWT(intoken).Audience) >= 1 && claimsAuthJWT(intoken).Audience[0] == state.idpGetIssuer()  #C04.update-issuer-audience @C04
+//@   ensures err == nil ==> claimsAuthJWT(intoken).TokenType == "keymaster_auth"                           #C04.update-kind @C04
+//@   ensures err == nil ==> claimsAuthJWT(intoken).NotBefore <= nowNanos() / 1000000000                    #C04.update-nbf @C04
